@@ -155,6 +155,8 @@ def check_batch(ctx, case) -> None:
             for i in range(1, n):
                 if any(math.isnan(x) for x in rows[i]) and math.isfinite(so[i - 1][oi]):
                     lp = True
+                if any(math.isnan(x) for x in rows[i]) and math.isinf(so[i - 1][oi]):
+                    ctx.cls("lock_previous_carries_infinite_value")
     if lp:
         ctx.cls("lock_previous_fill_forward_exercised")
     if n >= 2 and finite:
@@ -170,6 +172,8 @@ def cases(draw, maxrows=12):
     if n >= 3 and draw(st.booleans()):  # plant a NaN row after a (probably) valid one
         k = draw(st.integers(1, n - 1))
         rows[k] = [math.nan] * len(spec["inputs"])
+        if draw(st.integers(0, 2)) == 0:  # ... or after a row that drives Linear / Function outputs to +-inf
+            rows[k - 1] = [draw(st.sampled_from([math.inf, -math.inf]))] * len(spec["inputs"])
     mode = draw(st.sampled_from(["per_var", "per_var", "matrix", "matrix", "matrix1d", "matrix0d"]))
     return {"spec": spec, "rows": rows, "mode": mode}
 
